@@ -287,6 +287,7 @@ func TestC02Order(t *testing.T) {
 type StashMsg struct {
 	Stash   bool `json:"stash,omitempty"`
 	Unstash int  `json:"unstash,omitempty"` // 0 none, -999 Unstash(), n Unstash(n) (incl. n <= 0)
+	Sched   bool `json:"sched,omitempty"`   // delivered by the scheduler (Once with delay 0 from another actor) instead of Tell
 }
 
 type StashCase struct {
@@ -308,6 +309,7 @@ func genStash(t *rapid.T) StashCase {
 		case 3:
 			m.Unstash = rapid.SampledFrom([]int{1, 2, 3, 5, 100, -1, -5}).Draw(t, "k")
 		}
+		m.Sched = rapid.IntRange(0, 3).Draw(t, "sched") == 0
 		c.Msgs = append(c.Msgs, m)
 	}
 	// drain at the end so that most of the stash comes back
@@ -365,6 +367,7 @@ func TestC02Stash(t *testing.T) {
 			w := world.New(world.Options{})
 			defer w.Close()
 			_, _ = w.Spawn(world.Spec{Name: "t"})
+			_, _ = w.Spawn(world.Spec{Name: "s"})
 			vt.Settle()
 			w.Tell("t", "", 9999, []world.Step{{Op: "gate", S: "g"}})
 			vt.Settle()
@@ -376,7 +379,13 @@ func TestC02Stash(t *testing.T) {
 				if m.Unstash != 0 {
 					do = append(do, world.Step{Op: "unstash", N: m.Unstash})
 				}
-				w.Tell("t", "", i+1, do)
+				if m.Sched {
+					// through the scheduler: settled, so that the mailbox order is the script order
+					w.Tell("s", "", 0, []world.Step{{Op: "once", To: "t", D: 0, ID: i + 1, Do: do, S: fmt.Sprintf("j%d", i)}})
+					vt.Settle()
+				} else {
+					w.Tell("t", "", i+1, do)
+				}
 			}
 			w.Open("g")
 			vt.Settle()
@@ -408,6 +417,80 @@ func TestC02Stash(t *testing.T) {
 		}
 		vstat.Case(vstat.Hash(c.JSON()), partial, labels, func() any { return map[string]any{"script": c, "expected_order": want} })
 		if v != nil {
+			if vstat.Fail(v.sig, v.detail, c) {
+				return
+			}
+			rt.Fatalf("VERIF-FAIL sig=%s :: %s", v.sig, v.detail)
+		}
+	})
+}
+
+// System before user, also for a system message that is issued while system messages are being handled: a
+// supervisor that reacts to the death of a child (OnKilled, a system message) by killing itself immediately
+// (OnKill, a system message enqueued during the drain of the system queue) handles none of the 1-6 user messages
+// that were already waiting; they become dead letters.
+func TestC02SystemFirst(t *testing.T) {
+	rapid.Check(t, func(rt *rapid.T) {
+		k := rapid.IntRange(1, 6).Draw(rt, "waiting")
+		kids := rapid.IntRange(1, 3).Draw(rt, "children")
+		poisonKid := rapid.Bool().Draw(rt, "poisonKid")
+		c := map[string]any{"test": "TestC02SystemFirst", "waiting": k, "children": kids, "poisonKid": poisonKid}
+		vt.SetCase(c)
+		var v *verdict
+		res := vt.Run(t, func() {
+			w := world.New(world.Options{})
+			defer w.Close()
+			_, _ = w.Spawn(world.Spec{Name: "p", KillSelfOnChild: true})
+			for i := 0; i < kids; i++ {
+				sp := world.Spec{Name: fmt.Sprintf("c%d", i)}
+				w.Tell("p", "", 0, []world.Step{{Op: "spawn", Spec: &sp}})
+			}
+			vt.Settle()
+			w.Tell("p", "", 9999, []world.Step{{Op: "gate", S: "g"}})
+			vt.Settle()
+			w.Kill("p/c0", "", poisonKid)
+			vt.Settle() // the child is gone, its OnKilled waits in p's system queue
+			for i := 0; i < k; i++ {
+				w.Tell("p", "", i+1, nil)
+			}
+			w.Open("g")
+			vt.Settle()
+			tr, obs := w.Snapshot()
+			seenChildDeath := false
+			for _, e := range world.PerActor(tr)["/p"] {
+				if e.Kind == "killed:/p/c0" {
+					seenChildDeath = true
+				}
+				if seenChildDeath && e.Kind == "msg" && e.ID < 9000 {
+					v = &verdict{"C02/system-before-user|issued-during-system-handling", fmt.Sprintf("/p killed itself (immediately) while handling its child's OnKilled, yet it handled user message %d afterwards, before its own OnKill; trace of /p: %s", e.ID, world.Fmt(world.PerActor(tr)["/p"]))}
+					return
+				}
+			}
+			if !seenChildDeath {
+				v = &verdict{"C02/harness", "the parent never saw its child's OnKilled"}
+				return
+			}
+			dead := map[int]bool{}
+			for _, o := range obs {
+				if o.Type == "DeadLetter" {
+					dead[o.MsgID] = true
+				}
+			}
+			for i := 1; i <= k; i++ {
+				if !dead[i] {
+					v = &verdict{"C02/system-before-user|waiting-mail-not-dead-lettered", fmt.Sprintf("user message %d, waiting when /p killed itself immediately, was not published as a dead letter; trace of /p: %s", i, world.Fmt(world.PerActor(tr)["/p"]))}
+					return
+				}
+			}
+		})
+		if v == nil && res.Panic != nil {
+			v = &verdict{"C02/harness-panic", fmt.Sprintf("%v\n%s", res.Panic, res.Stack)}
+		}
+		vstat.Case(vstat.Hash("sysfirst", k, kids, poisonKid), true, []string{"system-message-issued-during-system-handling"}, func() any { return c })
+		if v != nil {
+			if v.sig == "C02/harness" {
+				rt.Fatalf("harness: %s", v.detail)
+			}
 			if vstat.Fail(v.sig, v.detail, c) {
 				return
 			}
